@@ -3,8 +3,10 @@
 T1 (generated obligation): props/C13/harness/extract (go/ast) reads collect.go, fingerprint.go,
    build.go, crosscompile.go of vlib.REPO's working tree and reports which inputs reach the cache
    manifest; they are mapped to the kinds of coq/theories/C13/Model.v and Coq evaluates
-   `uncovered gen_manifest_kinds (KDeps :: relevant_kinds)`: with the kinds recorded as known
-   findings added, `covers` must be true (Lemma covers_now_modulo_known, checked by coqc each run).
+   `uncovered gen_manifest_kinds (KDeps :: relevant_kinds)`: `covers` must be true (Lemma
+   covers_now_modulo_known, checked by coqc each run; kinds still recorded as known findings are added
+   first - none since the four C13 fixes), and the extracted kinds must be exactly
+   Model.tree_manifest true (Lemma gen_manifest_is_tree_manifest).
 E  (property oracle): edit histories over a generated 4-package module (main -> a -> b -> c) with a
    private cache directory per history: build, edit ONE input, rebuild with the warm cache, and
    compare the program's behaviour with a clean build (no cache entry of the module) of the same
@@ -18,6 +20,7 @@ from concurrent.futures import ThreadPoolExecutor
 import vlib, e2e
 
 H = os.path.join(os.path.dirname(os.path.abspath(__file__)), "harness")
+JOBS = int(os.environ.get("VERIF_JOBS", "8") or 8)   # concurrent llgo builds (the machine is shared)
 
 # kind -> (finding key, text) ; one key per kind, raised by the static obligation and/or the history
 KEYS = {
@@ -91,7 +94,9 @@ def kinds_from_facts(F):
     has["KEnvListed"] = src("env", "Vars", "os.Getenv") and needed <= listed and len(needed) > 0
     if not needed <= listed:
         notes.append("environment switches read by build.go but not in the manifest: " + ",".join(sorted(needed - listed)))
-    has["KEnvExpand"] = anysrc("pkg", ["xenv.ExpandEnv"]) or anysrc("common", ["xenv.ExpandEnv"])
+    # the expansion itself (flag strings), not merely a file list computed next to it
+    has["KEnvExpand"] = any(live(sc, f) and any("xenv.ExpandEnv" in x for x in v) and not any("digestFiles" in x for x in v)
+                            for (sc, f), v in fields.items() if sc in ("pkg", "common"))
     has["KTarget"] = (src("env", "Goos", "buildConf.Goos") and src("env", "Goarch", "buildConf.Goarch")
                       and src("env", "LlvmTriple", "LLVMTarget") and src("common", "Target", "buildConf.Target")
                       and src("common", "TargetABI", "TargetABI"))
@@ -433,8 +438,15 @@ def run(ck):
     text2 += "Definition gen_manifest_kinds : list kind := %s.\n" % coq_kinds(gen)
     text2 += "Lemma covers_now_modulo_known : covers (gen_manifest_kinds ++ %s) (KDeps :: relevant_kinds) = true.\nProof. reflexivity. Qed.\n" % coq_kinds(known_kinds)
     rc2, out2 = ck.coq_run(text2, "c13_covers")
+    text3 = "From LLGoV Require Import C13.Model.\n"
+    text3 += "Definition gen_manifest_kinds : list kind := %s.\n" % coq_kinds(gen)
+    text3 += ("Lemma gen_manifest_is_tree_manifest : covers gen_manifest_kinds (tree_manifest true) && "
+              "covers (tree_manifest true) gen_manifest_kinds = true.\nProof. reflexivity. Qed.\n")
+    rc3, out3 = ck.coq_run(text3, "c13_treemanifest")
     ck.obligations.append(("covers_now_modulo_known", rc2 == 0,
                            "generated: manifest kinds %s; uncovered %s; known %s" % (gen, uncovered, known_kinds)))
+    ck.obligations.append(("gen_manifest_is_tree_manifest", rc3 == 0,
+                           "generated: the kinds extracted from the sources are exactly Model.tree_manifest true"))
     ck.cov["manifest_kinds"] = gen
     ck.cov["uncovered_kinds"] = uncovered
     ck.log("manifest kinds:", ",".join(gen))
@@ -477,7 +489,7 @@ def run(ck):
     def seed_one(i_c):
         i, (cfg, driver, sdir) = i_c
         return R0.build(sdir, os.path.join(ck.work, "seed%d.bin" % i), cfg, seed, driver)[:2]
-    with ThreadPoolExecutor(len(seed_cfgs)) as ex:
+    with ThreadPoolExecutor(min(len(seed_cfgs), JOBS)) as ex:
         sres = list(ex.map(seed_one, enumerate(seed_cfgs)))
     for (rc, log), (cfg, driver, _sd) in zip(sres, seed_cfgs):
         if rc != 0:
@@ -504,7 +516,7 @@ def run(ck):
             return None, log
         bh = hashlib.sha256(open(os.path.join(ck.work, "det", "prog%d" % i), "rb").read()).hexdigest()
         return json.load(open(irj)), bh
-    with ThreadPoolExecutor(min(len(names) + nrep, 16)) as ex:
+    with ThreadPoolExecutor(min(len(names) + nrep, JOBS)) as ex:
         fut_h = [ex.submit(R.run_history, n, hs[n]) for n in names]
         fut_d = [ex.submit(det_one, i) for i in range(nrep)]
         results = [f.result() for f in fut_h]
